@@ -459,8 +459,9 @@ def judge_call(c, files, rec, st):
             if got_lab - want_lab:
                 return cm.viol("C11/ptb_delete_traces/slash/labels-not-those-without-slash",
                                params=params, extra=sorted((got_lab - want_lab).elements()))
-            fillers = set(strip_indices(c[0], False).split("-")[0].rstrip("'")
+            fillers = set(strip_indices(c[0], False).split("-")[0]
                           for c in model.constituents(sent["root"]))
+            fillers |= set(x.rstrip("'") for x in fillers)      # with or without head marker
             annots = set(x for c in model.constituents(got["root"])
                          for x in c[0].split("/")[1:])
             if annots:
